@@ -19,6 +19,9 @@ DEFAULT_SRC = "/repo/src/aioftp"
 PROPS = [f"C{i:02d}" for i in range(1, 21)]
 
 
+THOROUGH_EXTRA_UNROLL = 2
+
+
 def run_rules(prop, program, tier):
     mod = importlib.import_module(f"sa.props.{prop.lower()}")
     ctx = report.Ctx(prop, program, tier)
@@ -79,7 +82,12 @@ def main(argv=None):
         print(f"ANALYSIS-ERROR property={prop} {e}")
         _error_evidence(prop, a, seed, t0, mod, "error", str(e))
         return 2
-    status, findings, ctx, msg = analyse(prop, sources, a.tier, program)
+    from .paths import Cfg
+    Cfg.BONUS = THOROUGH_EXTRA_UNROLL if a.tier == "thorough" else 0   # thorough: every path rule explores loops deeper
+    try:
+        status, findings, ctx, msg = analyse(prop, sources, a.tier, program)
+    finally:
+        Cfg.BONUS = 0   # the seeded self-validation below re-runs the quick analysis on each seeded variant
     if status != "ok":
         tag = "ANALYSIS-INCONCLUSIVE" if status == "inconclusive" else "ANALYSIS-ERROR"
         print(f"{tag} property={prop} {msg}")
